@@ -27,7 +27,7 @@ func init() {
 func scenarioC09(r *Run) {
 	t := r.T
 	ent := NewEntropy(uint64(t.U32("entropy.seed")))
-	so := SpecOpts{MaxExtra: 4, MaxSigner: 3, Cheap: true}
+	so := SpecOpts{MaxExtra: 4, MaxSigner: 3, Cheap: true, BigOK: bigOK(r, "c09.big")}
 	if t.Bool(1, 6, "c09.manylabels") {
 		so.MaxExtra = 30
 	}
@@ -41,10 +41,19 @@ func scenarioC09(r *Run) {
 	cur := w.B
 	faulted := false
 	if t.Bool(1, 3, "c09.fault") {
-		kinds := []string{"rewidth", "keyreorder", "unprot-edit"}
-		if out, k, ok := StructFault(t, cur, kinds[t.Choose(3, "c09.fault.kind")]); ok {
-			cur, faulted = out, true
-			r.Fired(k)
+		if t.Bool(1, 4, "c09.fault.any") {
+			// anything the channel can do: whatever the decoder still accepts
+			// is an "accepted wire message" and must survive the hops
+			if out, k := GenFaultMix(t).WireFault(t, cur); k != "" {
+				cur, faulted = out, true
+				r.Fired(k)
+			}
+		} else {
+			kinds := []string{"rewidth", "keyreorder", "unprot-edit"}
+			if out, k, ok := StructFault(t, cur, kinds[t.Choose(3, "c09.fault.kind")]); ok {
+				cur, faulted = out, true
+				r.Fired(k)
+			}
 		}
 	}
 	r.Outcome(spec.Kind.String())
